@@ -110,6 +110,13 @@ def run(ctx):
                     T.call(x, (compat, attr), cls)
                     ctx.case((x, compat, attr), nt, sample={"input": x[:120], "class": cls, "compatible": compat, "attribute": attr}
                              if cls in ("tokens", "legacy", "chars") and len(x) > 10 else None)
+        if ctx.shard % 4 == 3:
+            # scale: a long-lived process under a custom table - tens of thousands of distinct atom symbols go through
+            # the decoder; the state probes around every call keep watching the table in force and the presets
+            sf.set_semantic_constraints({"?": 6, "C": 3, "N": 5, "Sn+4": 2, "O": 2, "F": 1})
+            for k in range(20000 if quick else 70000):
+                T.call("[%dC][=N][%dO-1]" % (k, k % 97) if k % 3 else "[%dSn+4][F]" % k, (False, False), "soak")
+            ctx.count("soak_distinct_symbols", 20000 if quick else 70000)
     except AbortWorkload as e:
         ctx.count("workload_aborted_after_step_bound_violations")
     atheris_campaign(ctx, "decoder", runs=20000 if quick else 300000, T=T)
